@@ -60,7 +60,23 @@ def sample_file():
 TEXTS = ['', 'a', 'b', 'c', 'ab', 'ca', '1', 'a1', 'cab', 'AB', 'aa', 'bc1', 'cc']
 
 
+CLS_UNARY = [('invert', '(~{0}) if hasattr({0}, "_get_verbose_pattern") else {0}.optional()'), ('minus_z', "({0} - 'z') if hasattr({0}, \"_get_verbose_pattern\") else {0}.group()"),
+             ('or_q', "({0} | 'q') if hasattr({0}, \"_get_verbose_pattern\") else {0}.capture()")]
+CLS_BINARY = [('or', '({0} | {1}) if hasattr({0}, "_get_verbose_pattern") else {0}.concat({1})'),
+              ('sub', '({0} - {1}) if hasattr({0}, "_get_verbose_pattern") else {0}.either({1})'),
+              ('rsub', '({1} - {0}) if hasattr({1}, "_get_verbose_pattern") else {0}.enclose({1})')]
+
+
 def events(n_pool, reduced):
+    if reduced == 'cls':
+        ev = []
+        for i in range(n_pool):
+            for name, t in CLS_UNARY:
+                ev.append(('u', name, t, (i,)))
+            for j in range(n_pool):
+                for name, t in CLS_BINARY:
+                    ev.append(('b', name, t, (i, j)))
+        return ev
     ev = []
     un = UNARY[:5] if reduced else UNARY
     bi = BINARY[:3] if reduced else BINARY
@@ -177,7 +193,7 @@ def _task_hist(arg):
                 continue
             if len(h) < depth:
                 n_next = len(pool0) + sum(1 for e in h if e[0] in ('u', 'b'))
-                for e in events(n_next, len(h) >= reduced_from):
+                for e in events(n_next, 'cls' if pool0 is CLS_POOL or list(pool0) == CLS_POOL else (len(h) >= reduced_from)):
                     stack.append(h + (e,))
         if len(viol) > 50:
             break
@@ -188,9 +204,9 @@ def run_histories(run):
     """quick: all histories of length <= 2 over the full event menu and a pool of 3, plus all histories of length <= 3 over the
     reduced menu and a pool of 2; thorough: length <= 3 full menu (pool of 3) plus length <= 4 reduced menu"""
     if run.tier == 'quick':
-        plans = [(POOL0, 2, 99, False), (POOL0[:2], 3, 0, True)]
+        plans = [(POOL0, 2, 99, False), (POOL0[:2], 3, 0, True), (CLS_POOL, 2, 0, 'cls')]
     else:
-        plans = [(POOL0, 3, 99, False), (POOL0[:2], 4, 0, True)]
+        plans = [(POOL0, 3, 99, False), (POOL0[:2], 4, 0, True), (CLS_POOL, 4, 0, 'cls')]
     tot = {}
     desc = []
     for pool0, depth, reduced_from, red_first in plans:
@@ -272,6 +288,14 @@ def run_orders(run):
     core_cls = [c for c in core if not c.startswith(("'", 'Newline', 'Backslash'))]
     exprs = [f"({a}) {op} ({b})" for a in core_cls for b in core_cls for op in '|-'] + [f"~({c})" for c in reg + neg] + ORDER_EXTRA
     exprs += [f"AnyFrom({a!r}, {b!r}, {c!r})" for a, b, c in itertools.permutations(['\\', ']', '[', '^', '-', 'a'], 3)]
+    iv = ["AnyBetween('a', 'm')", "AnyBetween('c', 'e')", "AnyBetween('k', 'z')", "AnyBetween('a', 'c')", "AnyBetween('e', 'g')", "AnyBetween('b', 'k')",
+          "AnyFrom('d')", "AnyFrom('a', 'z')", "AnyBetween('n', 'p')"]
+    for a, b, c in itertools.product(iv, repeat=3):
+        if len({a, b, c}) == 3:
+            exprs.append(f"({a}) | (({b}) | ({c}))")
+            if thorough or (iv.index(a) + iv.index(b) + iv.index(c)) % 3 == 0:
+                exprs.append(f"(({a}) | ({b})) | ({c})")
+                exprs.append(f"(({a}) | ({b})) - ({c})")
     tot = {}
     for viol, cnt in common.pmap(_task_order, [(c, 2 if thorough else 1, thorough) for c in common.chunks(exprs, 40)]):
         run.add(viol)
@@ -370,8 +394,66 @@ def run_crossprocess(run):
     return {'xp_expressions': len(exprs), 'xp_processes': k, 'xp_comparisons': n, 'xp_seeds': seeds}
 
 
+def _task_compile_diff(exprs):
+    """behaviour before compile() == after compile() == after get_compiled_pattern(True) again, on all texts of length <= 2
+    over the pattern's own alphabet"""
+    viol, n = [], 0
+    for e in exprs:
+        try:
+            p = eval(e, dict(NS))
+            text = str(p)
+            tree = rx.parse(text)
+        except Exception:  # noqa: BLE001
+            continue
+        if tree.inctx:
+            continue
+        sigma = rx.alphabet([tree.tree], limit=5)
+        ts = [''] + list(sigma) + [a + b for a in sigma for b in sigma]
+
+        def beh(o):
+            out = []
+            for t in ts:
+                try:
+                    out.append((o.get_matches_and_pos(t), o.is_exact_match(t), o.has_match(t), o.replace(t, '-', 1), o.split_by_match(t),
+                                o.get_captures(t)))
+                except Exception as ex:  # noqa: BLE001
+                    out.append(type(ex).__name__)
+            return out
+        b0 = beh(p)
+        p.compile()
+        b1 = beh(p)
+        p.get_compiled_pattern(True)
+        b2 = beh(p)
+        n += 3 * len(ts)
+        if not (b0 == b1 == b2):
+            k = next(i for i in range(len(ts)) if not (b0[i] == b1[i] == b2[i]))
+            viol.append(V(f'C20|compile|{e}', f"{e}: behaviour on {ts[k]!r} before compile() {b0[k]!r}, after {b1[k]!r}, after discarding {b2[k]!r}",
+                          f"p = {e}\nt = {ts[k]!r}\ndef beh(o):\n    return (o.get_matches_and_pos(t), o.is_exact_match(t), o.has_match(t), o.replace(t, '-', 1), o.split_by_match(t), o.get_captures(t))\n"
+                          f"a = beh(p)\np.compile()\nb = beh(p)\np.get_compiled_pattern(True)\nc = beh(p)\nassert a == b == c, (a, b, c)"))
+    return viol, n
+
+
+def run_compile_diff(run):
+    exprs = [e for e in canonical_exprs(run) if not e.startswith(('AnyFrom(', '(Any', '~(', 'Any'))]
+    exprs += ["Pregex(\"\\\\'\")", "Backslash() + \"'\"", "Pregex('\\t')", "Pregex('a\\tb')", "Optional('\\r')", "AnyFrom('\\t')", "Pregex('\\x0b\\x0c')",
+              "Pregex('\\n')", "Pregex('\\x00')", "Pregex('\\x85')", "Pregex('\\u2028')", "Pregex('\"')", "Pregex('\\\\\"')", "Pregex(\"'\\\\\")",
+              "AnyFrom('\\\\', \"'\")", "Pregex('é')", "Pregex('\\ud800')", "Pregex('\\U0001f600')", "Pregex(' ')", "Pregex('\\x7f')", "Pregex('\\x1b[0m')"]
+    tot = 0
+    for viol, n in common.pmap(_task_compile_diff, common.chunks(exprs, 100)):
+        run.add(viol)
+        tot += n
+    return {'compile_diff_expressions': len(exprs), 'compile_diff_observations': tot}
+
+
+CLS_POOL = ["AnyFrom('a', 'z', '5')", "AnyBetween('a', 'c')", "Pregex('z')"]
+
+
 def run_C20(run):
-    cov, assumptions = graph._run(run, [monitors.C20()])
+    cov, assumptions = graph._run(run, [monitors.C20()], shallow=True)
+    cd = run_compile_diff(run)
+    run.merge_counts(cd)
+    cov['transitions'] += cd['compile_diff_observations']
+    cov['traces_validated_against_impl'] += cd['compile_diff_observations']
     h, depth = run_histories(run)
     o = run_orders(run)
     x = run_crossprocess(run)
